@@ -314,7 +314,7 @@ def make_task_class(spec, module_name='vgen'):
         if p.get('name_in_config'):
             kw['name_in_config'] = p['name_in_config']
         if p.get('dtype'):
-            kw['dtype'] = {'str': str, 'int': int}.get(p['dtype'], p['dtype'])
+            kw['dtype'] = {'str': str, 'int': int, 'path': Path}.get(p['dtype'], p['dtype'])
         params.append(Parameter(p['name'], **kw))
     meta['parameters'] = params
     meta['input_tasks'] = []  # filled by make_module once all classes exist
